@@ -514,7 +514,7 @@ func runC20(c *core.Ctx) {
 	}
 	ig := newInputGen(c.Rng)
 	g := ig.g
-	n := c.PerShard(c.Pick(120000, 5000000))
+	n := c.PerShard(c.Pick(120000, 4000000))
 	seeds := ig.fams["cert"]
 	for i := 0; i < n; i++ {
 		id := fmt.Sprintf("s%d-%d", c.Shard, i)
